@@ -31,9 +31,14 @@ open Generated.LineNum
 /-- `usize::MAX` on the 64-bit target the checks build. -/
 def usizeMax : Nat := 18446744073709551615
 
+/-- `usize` addition: checked (`sat = false`; dev profile: overflow panics) or `saturating_add`
+    (`sat = true`). Which one a call site uses is read from the source (generated flags). -/
+def addUsizeSat (sat : Bool) (a b : Nat) : Except String Nat :=
+  if a + b ≤ usizeMax then .ok (a + b)
+  else if sat then .ok usizeMax else .error "attempt to add with overflow"
+
 /-- Checked `usize` addition (dev profile: overflow panics). -/
-def addUsize (a b : Nat) : Except String Nat :=
-  if a + b ≤ usizeMax then .ok (a + b) else .error "attempt to add with overflow"
+def addUsize (a b : Nat) : Except String Nat := addUsizeSat false a b
 
 /-! ### States, panels -/
 
@@ -71,11 +76,11 @@ def lookupArm (code : Nat) : List (Nat × Nat × Nat × Bool × Bool) → Option
   | [] => none
   | (c, il, ir, sl, sr) :: rest => if c = code then some (il, ir, sl, sr) else lookupArm code rest
 
-/-- `x += inc`, `k` times. -/
+/-- `x += inc` (or `x = x.saturating_add(inc)`, as the source says), `k` times. -/
 def bumpN (x inc : Nat) : Nat → Except String Nat
   | 0 => .ok x
   | k + 1 =>
-    match addUsize x inc with
+    match addUsizeSat counterAddSaturates x inc with
     | .error e => .error e
     | .ok y => bumpN y inc k
 
@@ -717,7 +722,7 @@ def renderCell (fl fr : List PH) (minW : Nat) : Option Cell → List Char
 def maxSum : List (Nat × Nat) → Except String Nat
   | [] => .ok 0
   | (n, d) :: rest =>
-    match addUsize n d with
+    match addUsizeSat maxSumSaturates n d with
     | .error e => .error e
     | .ok s =>
       match maxSum rest with
@@ -796,14 +801,16 @@ def coordsF : Nat → List Char → Except String (List (Nat × Nat))
     else coordsF fuel rest
 
 /-- `parse_hunk_header`: `none` if the line is not a hunk header, else the code fragment and
-    the `(start, length)` pairs. -/
+    the `(start, length)` pairs. A number `parse::<usize>` rejects, or the absence of any coordinate,
+    is a panic / an empty list or (optional repair, generated flags) makes the line 'not a header'. -/
 def parseHunkHeader (line : List Char) : Except String (Option (List Char × List (Nat × Nat))) :=
   match findHeader line with
   | none => .ok none
   | some (coordsText, frag) =>
     match coordsF (coordsText.length + 1) coordsText with
-    | .error e => .error e
-    | .ok pairs => .ok (some (frag, pairs))
+    | .error e => if headerParseRejects then .ok none else .error e
+    | .ok pairs =>
+      if headerRejectsEmpty && pairs.isEmpty then .ok none else .ok (some (frag, pairs))
 
 /-- A two-way hunk header as git / diff -u write it: `@@ -a[,b] +c[,d] @@frag`. -/
 def fmtCoord (sign : Char) (start : Nat) (len : Option Nat) : List Char :=
